@@ -80,7 +80,7 @@ def doc_pool():
     ]
     p["sami"] = [
         docs.sami_doc([(1000, [("en-US", "one"), ("fr-FR", "un")]), (2000, [("en-US", "&nbsp;")]), (2500, [("fr-FR", "deux<br/><i>d</i>")]), (3000, [("en-US", "three")])], ["en-US", "fr-FR"], class_css={"en-US": "margin-left: 2%; text-align: center; "}),
-        docs.sami_doc([(1000, [("de-DE", "eins")]), (1500, [("es-ES", "uno"), ("en-US", "one")]), (2000, [("de-DE", "zwei")])], ["de-DE", "es-ES", "en-US"]),
+        docs.sami_doc([(1000, [("de-DE", "eins")]), (1500, [("es-ES", "uno"), ("en-US", "one")]), (2000, [("de-DE", "zwei")])], ["de-DE", "es-ES", "en-US"]).replace('<P class="DECC">zwei</P>', '<P class="DECC" style="text-align:center;">zwei<br/>drei</P>'),
         "<SAMI><BODY><SYNC><P class=ENCC>no start: reader raises</P></SYNC></BODY></SAMI>",
         # a style sheet the reader rejects half-way (invalid colour after valid rules): every read must reject it again
         docs.sami_doc([(1000, [("en-US", "one")]), (2000, [("en-US", "&nbsp;")])], ["en-US"], extra_css=".A { color: red; }\n.B { color: ffeedd; }\n.C { text-align: right; }"),
@@ -196,11 +196,17 @@ def do_edit(cs, kind):
         for c in caps:
             for holder in [c] + list(c.nodes):
                 L = getattr(holder, "layout_info", None)
+                done = False
                 if L is not None and L.alignment is not None:
                     L.alignment.horizontal = HorizontalAlignmentEnum.RIGHT if L.alignment.horizontal != HorizontalAlignmentEnum.RIGHT else HorizontalAlignmentEnum.LEFT
-                    return
+                    done = True
                 if L is not None and L.origin is not None:
                     L.origin.x.value = L.origin.x.value + 1
+                    done = True
+                if L is not None and L.padding is not None and L.padding.start is not None:
+                    L.padding.start.value = L.padding.start.value + 1
+                    done = True
+                if done:
                     return
     elif kind == "set_layout":
         cs.set_layout_info(lang, Layout(origin=Point(Size(1, UnitEnum.PERCENT), Size(2, UnitEnum.PERCENT))))
